@@ -478,6 +478,24 @@ fn parse_unknown_taggedstruct(
     parser: &mut ParserState,
     context: &ParseContext,
 ) -> Result<GenericIfData, ParserError> {
+    // parse_unknown_taggedstruct() and parse_unknown_ifdata() call each other recursively for nested blocks
+    if parser.ifdata_nesting_depth >= crate::a2ml::MAX_NESTING_DEPTH {
+        return Err(ParserError::NestingTooDeep {
+            filename: parser.filenames[context.fileid].to_string(),
+            error_line: parser.last_token_position,
+            block: context.element.clone(),
+        });
+    }
+    parser.ifdata_nesting_depth += 1;
+    let result = parse_unknown_taggedstruct_items(parser, context);
+    parser.ifdata_nesting_depth -= 1;
+    result
+}
+
+fn parse_unknown_taggedstruct_items(
+    parser: &mut ParserState,
+    context: &ParseContext,
+) -> Result<GenericIfData, ParserError> {
     let mut tsitems: HashMap<String, Vec<GenericIfDataTaggedItem>> = HashMap::new();
 
     while let Some(A2lToken {
